@@ -158,19 +158,15 @@ fn c03_classic_n4() {
     check_selection::<4>(SchedulingMode::Classic, SYM_INT, false);
 }
 
-/// Compositional abstraction of the two float-heavy leaf functions of the enhanced selector, used
-/// by the quick-tier harnesses: each is replaced by a DETERMINISTIC function of an otherwise unused
-/// symbolic field of the link, ranging over the leaf's whole documented range.  The selector logic
-/// is then decided for every value the leaves may return (an over-approximation: sound for
-/// C03/C04/C12); that the real leaves stay inside those ranges is decided in c11.  The thorough
-/// tier runs the same harness with the real leaves.
+/// The two float-heavy leaf functions of the enhanced selector are replaced by their exact tables on
+/// the leaf domain (util::leaf_tables; exactness is decided by c11_leaf_tables_exact), and the links
+/// are constrained to that domain (SYM_LEAF).  The thorough tier also runs the selector with the
+/// real leaves on unconstrained inputs.
 pub fn cap_exceeded_abs(c: &SrtlaConnection) -> bool {
-    c.cc_target_bps != 0 && (c.cc_target_bps & 1) == 1
+    leaf_tables::cap_exceeded(c)
 }
 pub fn soft_cap_abs(c: &SrtlaConnection) -> f64 {
-    // rtt_min_ms is not read by anything else once in_flight_cap_exceeded is abstracted
-    let m = c.rtt.rtt_min_ms;
-    if m >= 0.1 && m <= 1.0 { m } else { 1.0 }
+    leaf_tables::soft_cap(c)
 }
 
 #[kani::proof]
@@ -178,7 +174,7 @@ pub fn soft_cap_abs(c: &SrtlaConnection) -> f64 {
 #[kani::stub(srtla_core::selection::enhanced::in_flight_cap_exceeded, cap_exceeded_abs)]
 #[kani::stub(srtla_core::selection::enhanced::cc_soft_cap_multiplier, soft_cap_abs)]
 fn c03_enhanced_n2() {
-    check_selection::<2>(SchedulingMode::Enhanced, SYM_FULL, true);
+    check_selection::<2>(SchedulingMode::Enhanced, SYM_LEAF, true);
 }
 
 #[kani::proof]
@@ -186,7 +182,7 @@ fn c03_enhanced_n2() {
 #[kani::stub(srtla_core::selection::enhanced::in_flight_cap_exceeded, cap_exceeded_abs)]
 #[kani::stub(srtla_core::selection::enhanced::cc_soft_cap_multiplier, soft_cap_abs)]
 fn c03_enhanced_n3() {
-    check_selection::<3>(SchedulingMode::Enhanced, SYM_FULL, true);
+    check_selection::<3>(SchedulingMode::Enhanced, SYM_LEAF, true);
 }
 
 /// Same, with the real leaf functions (f64 BDP cap and soft-cap arithmetic).
